@@ -550,7 +550,7 @@ def store_history(rng, nsteps):
         return app("vector-ref", var(x), lit(j)), lens[x][j]
 
     for step in range(nsteps):
-        ops = ["newcounter", "newacc", "newshared", "newvec", "global", "newloop"]
+        ops = ["newcounter", "newacc", "newshared", "newvec", "global", "newloop", "nest"]
         if loops: ops += ["bumploop", "bumploop"]
         if counters or accs: ops += ["call", "call", "call2"]
         if shared: ops += ["shared", "shared"]
@@ -574,6 +574,20 @@ def store_history(rng, nsteps):
             for _ in range(j):
                 e = app("cdr", e)
             forms.append(app(app("car", e)))
+        elif op == "nest":
+            # a vector stored INTO a vector that looks just like it: the slot holds that very object, not a copy
+            a, b = "n%d" % rng.randint(1, 3), "m%d" % rng.randint(1, 3)
+            k = rng.randint(1, 3)
+            fill = rng.randint(0, 3)
+            mk = (lambda: app("make-vector", lit(k), lit(fill))) if rng.random() < 0.5 else (lambda: app("vector", *[lit(fill)] * k))
+            forms.append(define(a, mk()))
+            forms.append(define(b, mk()))
+            forms.append(app("vector-set!", var(a), lit(rng.randrange(k)), var(b)))
+            forms.append(app("vector-set!", var(b), lit(rng.randrange(k)), lit(rng.randint(10, 99))))
+            forms.append(app("list", var(a), var(b)))
+            if rng.random() < 0.5:
+                forms.append(app("vector-set!", app("vector-ref", var(a), lit(0)) if False else var(b), lit(0), lit(rng.randint(10, 99))))
+                forms.append(app("list", var(a), var(b)))
         elif op == "newacc":
             n = "a%d" % rng.randint(1, 3)
             forms.append(define(n, app("make-acc", lit(rng.randint(0, 9)))))
